@@ -75,3 +75,50 @@ Proof.
   - intros y Hy. apply Hin. now rewrite E in Hy.
   - apply Ho. intros i j a b Hi. destruct i; discriminate.
 Qed.
+
+(* ---------- C17 at the entry point ------------------------------------------------------------------ *)
+
+From MV Require Import TotalLemmas SrcCorollaries.
+
+(* with citations that dereference (in particular without any), vector.assemble(...) as regenerated
+   returns or raises one of the four documented errors only *)
+Theorem entry_point_total vector m ms kw hd :
+  good_ent vector -> Forall good_ent (m :: ms) ->
+  map ent_id (m :: ms) = seq 0 (List.length (m :: ms)) -> ent_id vector = List.length (m :: ms) ->
+  deref_elems ((m :: ms) ++ [vector]) [] (heap_of (vector :: m :: ms)) = Ok hd ->
+  match fst (run_assemble (S (S (List.length (m :: ms)))) vector (m :: ms) kw) with
+  | Ok _ => True
+  | Err x => documented x
+  end.
+Proof.
+  intros Gv Gm Hids Hvid Ede.
+  pose proof (run_assemble_outcome vector m ms kw Gv Gm Hids Hvid) as H. cbv zeta in H. rewrite Ede in H.
+  pose proof (assemble_raw_no_internal (ent_cls vector) (ent_seq_w vector) (map raw_of (m :: ms))) as Hn.
+  destruct (fst (run_assemble _ vector (m :: ms) kw)) as [[p ws]|x]; [exact I|].
+  destruct x; cbn in *; auto;
+    destruct (assemble_raw _ _ _); cbn in H; try discriminate; try congruence.
+Qed.
+
+(* what can stop the dereferencing: a citation that is not a string (TypeError), not of the
+   bracketed form or without digits (ValueError), or out of range (IndexError) *)
+Lemma cit_rx_match_err c x : cit_rx_match c = Err x -> x = XTypeError.
+Proof.
+  destruct c as [s|r]; cbn; [|intros H; now inversion H].
+  destruct s as [|a s]; [discriminate|].
+  destruct (Ascii.eqb a _); [|discriminate]. destruct (take_digits s) as [d t]. destruct t as [|b t]; [discriminate|].
+  destruct (Ascii.eqb b _); discriminate.
+Qed.
+
+Lemma deref_cit_errors refs c e : deref_cit refs c = Err e -> e = XTypeError \/ e = XValueError \/ e = XIndexError.
+Proof.
+  unfold deref_cit. destruct (cit_rx_match c) as [[mm|]|x] eqn:Em; cbn [bind].
+  - unfold citmatch_group. cbn [Z.eqb Pos.eqb bind].
+    destruct (py_int_of_str (cm_digits mm)) as [z|x] eqn:Ei; cbn [bind].
+    + unfold py_getitem, PyGetItem_list.
+      destruct (nth_error refs (Z.to_nat (py_norm (py_len refs) (z - 1)))); [destruct (z - 1 <? - py_len refs)|];
+        intros H; inversion H; auto.
+    + intros H. inversion H; subst. unfold py_int_of_str in Ei. destruct (cm_digits mm); [inversion Ei; auto|].
+      destruct (DecimalString.NilEmpty.uint_of_string _); inversion Ei; auto.
+  - intros H. inversion H. auto.
+  - intros H. inversion H; subst. left. eapply cit_rx_match_err; eassumption.
+Qed.
